@@ -495,7 +495,14 @@ def xyz_obligations(ctx, m):
 def build(ctx):
     m = ctx.mod('_dictable')
     ctx.trust('cmp laws (range, antisymmetry, transitivity) are hypotheses here: they are the subject of property C07')
+    n_lb = len(ctx.obligations)
     ctx.guarded('_listby', lambda: listby_obligations(ctx, m))
+    # the loop-invariant obligations of _listby are discharged on their grounding here, so that a broken loop body comes back `sat` (a named violation)
+    # rather than `unknown`; C02 discharges the same obligations with the solver's own quantifier instantiation
+    from pyvc.ground import ground_obligation
+    for ob in ctx.obligations[n_lb:]:
+        if '.inv_preserved.' in ob.name:
+            ground_obligation(ob, rounds=2, cap=600)
 
     def cells(fname, outer_is_nested):
         fdef = m.func('dictable.' + fname)
